@@ -1,6 +1,9 @@
 use std::cell::UnsafeCell;
 use std::ptr;
+#[cfg(not(may_verif))]
 use std::sync::atomic::{AtomicPtr, Ordering};
+#[cfg(may_verif)]
+use crate::verif::atomic::{AtomicPtr, Ordering};
 
 use crossbeam_utils::{Backoff, CachePadded};
 
